@@ -105,7 +105,8 @@ def g_control(rng: random.Random, allow_custom: bool = False) -> dict:
         return {"k": "paged", "crit": crit, "size": g_int(rng), "cookie": g_bytes(rng).hex(), "raw": None}
     if k == "custom":
         return {"k": "custom", "crit": crit, "data": g_bytes(rng).hex(), "raw": None}
-    return {"k": k, "crit": crit, "raw": None}
+    # the value-less Microsoft controls: a peer may still attach a controlValue (legal BER, kept verbatim by the library)
+    return {"k": k, "crit": crit, "raw": g_bytes(rng).hex() if rng.random() < 0.25 else None}
 
 
 def g_controls(rng, allow_custom=False):
